@@ -123,9 +123,16 @@ def replaceOtherFlags (w l : Flags) : Flags :=
 def replaceSelfFlags (s o : Flags) : Flags :=
   { mergeSafe s o with prio := o.prio, del := o.del, md := mmerge s.md o.md }
 
+/-- flags of a PROMOTED node `other` after `other.__dict__.update(self.__dict__)`: those of `self` (`sf`), except
+    that a node that was unsafe before the promotion (`was_unsafe = not other.ayns.safe`, by whatever cause — its
+    inherited flag is otherwise lost with its `__dict__`) is marked `_safe = False` afterwards. -/
+def promotedFlags (sf of : Flags) : Flags :=
+  if eSafe of then sf else { sf with safe := some false }
+
 /-- `self._maybe_promote(other)` with `self = comp sf sk scs`; returns the node and whether it is
     still the `self` object. When `other` is promoted it is cleared, re-filled through its own
-    mutators (children adopted under *its* flags `of`) and then takes over `self.__dict__`. -/
+    mutators (children adopted under *its* flags `of`) and then takes over `self.__dict__`; a promoted node
+    that was unsafe stays unsafe (`promotedFlags`). -/
 def maybePromote (sf : Flags) (sk : CompKind) (scs : List (Key × Node)) (o : Node) :
     Except Err (Node × Bool) :=
   match o with
@@ -135,13 +142,13 @@ def maybePromote (sf : Flags) (sk : CompKind) (scs : List (Key × Node)) (o : No
     else if ok.strictSub sk then
       match adoptAll of ok scs [] with
       | .error e => .error e
-      | .ok cs' => .ok (.comp sf ok cs', false)
+      | .ok cs' => .ok (.comp (promotedFlags sf of) ok cs', false)
     else if sk.strictSub ok then .ok (.comp sf sk scs, true)
     else if sk.isPlain && !ok.isPlain then
       if sk = .list then
         match adoptAll of ok scs [] with
         | .error e => .error e
-        | .ok cs' => .ok (.comp sf ok cs', false)
+        | .ok cs' => .ok (.comp (promotedFlags sf of) ok cs', false)
       else .error .unsupported   -- dict content moved into a list subclass: `_children` gets str keys
     else .ok (.comp sf sk scs, true)
 
